@@ -38,22 +38,23 @@ def obligations(tier):
     n = 4 if q else 5
     k = 3 if q else 4
     T = 900 if q else 2400
+    MM = 2 if q else 5
     D = ["VP_N=%d" % n, "VP_K=%d" % k, "VP_STR_OBJ=%d" % (n + 4)]
     US = ["strtoll.0:2", "strtoll.1:4", "event_mm_strdup_.0:%d" % (n + 5), "prefix_suffix_match:%d" % (k + 2), "evhttp_find_alias:4", "vp_memcmp.0:%d" % (n + 2)]
     obs = [
         dict(name="match", harness="C30_route.c", entry="harness_match", defines=D + ["VP_KPAT=%d" % (k if q else n)], unwind=n + 3, unwindset=US,
-             timeout=T, mem_gb=4, desc="prefix_suffix_match vs reference glob: pattern <= %d, name <= %d symbolic bytes, both case modes" % (k if q else n, n)),
+             timeout=T, mem_gb=MM, desc="prefix_suffix_match vs reference glob: pattern <= %d, name <= %d symbolic bytes, both case modes" % (k if q else n, n)),
     ]
     for nest in (0, 1):
         obs.append(dict(name="vhost_" + ("nested" if nest else "sibling"), harness="C30_route.c", entry="harness_vhost", defines=D + ["VP_NESTED=%d" % nest],
-             unwind=n + 3, unwindset=US, instrument=[["--replace-calls", "prefix_suffix_match:vp_cut_glob"]], native=False, cbmc=["--object-bits", "10"], timeout=T, mem_gb=6,
+             unwind=n + 3, unwindset=US, instrument=[["--replace-calls", "prefix_suffix_match:vp_cut_glob"]], native=False, cbmc=["--object-bits", "10"], timeout=T, mem_gb=MM,
              desc="evhttp_find_vhost: root+alias, vhost+alias, second vhost %s; aliases/patterns <= %d, hostname <= %d symbolic bytes" % ("nested under the first" if nest else "sibling of the first", k, n)))
     obs += [
         dict(name="dispatch", harness="C30_route.c", entry="harness_dispatch", defines=D + ["VP_WIT_NUL"], unwind=n + 3, unwindset=US,
-             cbmc=["--object-bits", "10"], timeout=T, mem_gb=6,
+             cbmc=["--object-bits", "10"], timeout=T, mem_gb=MM,
              desc="evhttp_dispatch_callback: two registered paths <= %d, request path <= %d symbolic bytes (escapes incl. %%2F, %%00)" % (k, n)),
         dict(name="handle", harness="C30_route.c", entry="harness_handle", defines=D, unwind=n + 5, unwindset=US, instrument=CUTS, native=False,
-             cbmc=["--object-bits", "10"], timeout=T, mem_gb=6,
+             cbmc=["--object-bits", "10"], timeout=T, mem_gb=MM,
              desc="evhttp_handle_request: method filter, host from URI or Host header, root + one vhost, paths/patterns <= %d, request path/host <= %d" % (k, n)),
     ]
     return obs
